@@ -123,6 +123,14 @@ def run(repo, chk):
         chk.ob("R17.2", "probe.Probe._enter:acquires-overlay-membership-tooling", False, en.where,
                f"_enter acquires {sorted(wanted)}; expected the overlay, global_probes membership and tooling")
 
+    from .c05 import token_sites
+    oen, oex = repo.func("overlay.BaseOverlay.__enter__"), repo.func("overlay.BaseOverlay.__exit__")
+    toks = [tok for fi_, call, st, tok in token_sites(repo, ctxvars) if fi_.qual == oen.qual]
+    resets = [norm(c.args[0]) for c in ast.walk(oex.node) if isinstance(c, ast.Call) and isinstance(c.func, ast.Attribute) and c.func.attr == "reset" and c.args]
+    ok = len(toks) == 1 and toks[0] is not None and toks[0].startswith("self.") and resets == [toks[0]]
+    chk.ob("R17.2", "overlay.BaseOverlay:deactivation-removes-this-probe's-handlers", ok, oex.where,
+           f"the overlay behind a probe restores the context with the token its own activation stored on the instance ({toks} vs {resets}): after deactivate() the probe's handlers are no longer installed, "
+           "whatever other probes were activated or deactivated in between is decided by C05 R05.3")
     # R17.3
     pushers = sorted({q for q, fi in repo.functions.items() for c in walk_local(fi.node)
                       if isinstance(c, ast.Call) and isinstance(c.func, ast.Attribute) and c.func.attr == "_push"})
